@@ -203,6 +203,27 @@ LOOKALIKES = ['\u017f', '\u212a', '\u0130', '\u0131',      # case-fold onto s, k
               '\u00ad', '\u200b', '\ufeff', '\u0301']       # soft hyphen, zero-width space, BOM, combining accent
 
 
+def enum_words(tier):
+    """Names spelled with words that mean something to the HOST language or to the bus - Python keywords and builtins, the
+    reserved path / interface / bus name and their neighbours: the DBus grammar knows none of them."""
+    import keyword
+    words = sorted(set(keyword.kwlist + getattr(keyword, 'softkwlist', []) + ['None', 'True', 'False', 'print', 'self', 'type',
+                                                                              'id', 'object', '__init__', '__', '_', 'Local']))
+    seen = set()
+    for w in words:
+        for t in (w, 'a.' + w, w + '.b', 'a.' + w + '.' + w, '/' + w, '/a/' + w + '/b', ':1.' + w, 'x-' + w + '.' + w):
+            if t not in seen:
+                seen.add(t)
+                yield {'s': t}
+    for t in ('/org/freedesktop/DBus/Local', '/org/freedesktop/DBus/LocalCache', '/org/freedesktop/DBus/Local/child',
+              '/org/freedesktop/DBus/Loca', '/org/freedesktop/DBus', 'org.freedesktop.DBus', 'org.freedesktop.DBus.Local',
+              'org.freedesktop.DBusMenu', 'org.freedesktop.DBus.GLib.TestService', 'org.freedesktop.DBus.Error.Failed',
+              'org.freedesktop.DBus.Properties', 'org.freedesktop'):
+        if t not in seen:
+            seen.add(t)
+            yield {'s': t}
+
+
 def enum_lookalikes(tier):
     """Valid names of every kind with one character replaced by, or extended with, a non-ASCII character that some
     Unicode-aware operation (case folding, isdigit, isalnum, NFKC) would take for an ASCII one - or with an ASCII
@@ -373,6 +394,9 @@ SUBCHECKS = [
     Subcheck('lookalikes', run_string, classify_string, enumerate=enum_lookalikes, shards={'quick': 2, 'thorough': 2},
              exhaustive_note='11 valid names x 19 non-ASCII look-alike characters (case-folding, digit-like, fullwidth, '
                              'separator look-alikes, invisible) inserted or substituted at 5 positions x 5 validators'),
+    Subcheck('words', run_string, classify_string, enumerate=enum_words, shards={'quick': 1, 'thorough': 1},
+             exhaustive_note='every Python keyword / soft keyword and a dozen builtins, alone and as an element of each kind of name, '
+                             'plus the reserved path / names and their neighbours, x 5 validators'),
     Subcheck('long', run_string, classify_string, strategy=lambda tier: boundary_name(),
              n={'quick': 500, 'thorough': 4000}),
     Subcheck('ctor', run_ctor, classify_ctor, strategy=lambda tier: ctor_case(),
